@@ -148,6 +148,9 @@ def build_ops():
         ("concatenate", "tuple_axis", M, lambda x, y: np.concatenate((_1d(x), _1d(y)), axis=0), None),
         ("stack", "func", M, lambda x, y: np.stack([x, y]), "sameshape"),
         ("stack", "func3_last", M, lambda x, y: np.stack([x, x, y]), "sameshape"),
+        ("stack", "out", M, lambda x, y: np.stack([x, y], out=unyt_array(np.zeros((2,) + np.shape(_strip(x))), "kg")), "sameshape_q"),
+        ("concatenate", "out", M, lambda x, y: np.concatenate([_1d(x), _1d(y)], out=unyt_array(np.zeros(np.size(_strip(x)) + np.size(_strip(y))), "kg")), "bothq"),
+        ("stack", "out-left-unit", M, lambda x, y: np.stack([x, y], out=unyt_array(np.zeros((2,) + np.shape(_strip(x))), x.units)), "sameshape_q"),
         ("vstack", "func", M, lambda x, y: np.vstack([x, y]), None),
         ("hstack", "func", M, lambda x, y: np.hstack([_1d(x), _1d(y)]), None),
         ("dstack", "func", M, lambda x, y: np.dstack([x, y]), "sameshape"),
@@ -239,6 +242,8 @@ def admissible(op, lk, rk, x, y):
         return xq and x.ndim == 1 and not isinstance(y, list)
     if req == "sameshape":
         return not isinstance(x, list) and not isinstance(y, list) and np.shape(_strip(x)) == np.shape(_strip(y))
+    if req == "sameshape_q":
+        return xq and yq and np.shape(_strip(x)) == np.shape(_strip(y))
     if req == "bothq":
         return xq and yq
     if req == "bothq1":
@@ -419,7 +424,89 @@ def part_dims(ctx, shard):
             eval_case(ctx, op, lk, rk, triple, "array", ctx.seed)
 
 
+def part_namesake(ctx, shard):
+    """operands whose units are SPELLED the same but have different dimensions: a stale unit object kept across a
+    remove+add of its symbol, and the same symbol defined differently in two registries (cold and after a legitimate
+    warm-up call).  Every commensurability-requiring operation must still refuse them."""
+    from unyt import dimensions as udims
+    from unyt.unit_registry import UnitRegistry
+
+    world.reset_world()
+    for scenario in shard:
+        for oi, op in enumerate(OPS):
+            name, form, klass, func, _req = op
+            if klass == "close" or name in ("to_str", "copyto", "copyto_where", "divmod"):
+                # to_str re-reads the NAME in the left operand's registry (legitimately the same unit); copyto is a full
+                # copy; copyto(where=) and divmod never check dimensions at all (known findings of the main part)
+                continue
+            for order in ("ab", "ba"):
+                for shape in ("array", "scalar"):
+                    for warm in (False, True):
+                        if scenario == "stale-after-redefinition":
+                            reg = UnitRegistry()
+                            reg.add("code_x", 2.0, udims.length)
+                            a = _nq(reg, "code_x", shape, 0)
+                            reg.remove("code_x")
+                            reg.add("code_x", 3.0, udims.time)
+                            b = _nq(reg, "code_x", shape, 1)
+                            if warm:
+                                try:
+                                    a + a
+                                    b + b
+                                    a.to(a.units)
+                                except Exception:  # noqa: BLE001
+                                    pass
+                        else:
+                            r1, r2 = UnitRegistry(), UnitRegistry()
+                            r1.add("tick", 2.0, udims.length)
+                            r2.add("tick", 2.0, udims.time)
+                            a = _nq(r1, "tick", shape, 0)
+                            b = _nq(r2, "tick", shape, 1)
+                            if warm:
+                                try:
+                                    xm = _nq(r1, "m", shape, 0)
+                                    xm.to(a.units)
+                                    xm + a
+                                    xm.to("tick")
+                                except Exception:  # noqa: BLE001
+                                    pass
+                        x, y = (a, b) if order == "ab" else (b, a)
+                        if not admissible(op, "same", "diff", x, y):
+                            continue
+                        ctx.count("evaluations")
+                        nx, by = numbers_units(x), snap(y)
+                        try:
+                            res = func(x, y)
+                            out = "ok"
+                        except Exception as e:  # noqa: BLE001
+                            res, out = None, "raise"
+                        ctx.outcome(("namesake", scenario, name, form, out))
+                        ctx.decided(("namesake", scenario, name, form, order, shape, warm))
+                        case = {"part": "namesake", "scenario": scenario, "op": name, "form": form, "order": order, "shape": shape, "warm": warm}
+                        base = f"C01|namesake|scenario={scenario}|op={name}|form={form}|warm={int(warm)}"
+                        if snap(y) != by:
+                            ctx.violation(base + "|mode=operand-mutated:right", case, "unchanged", "changed")
+                        if klass in ("eq", "ne"):
+                            if out == "ok":
+                                want = klass == "ne"
+                                arr = np.asarray(res)
+                                if arr.dtype != bool or not np.all(arr == want):
+                                    ctx.violation(base + "|mode=equality-answer-wrong", case, want, _describe(res))
+                            continue
+                        if out != "raise":
+                            ctx.violation(base + "|mode=returned-instead-of-raise", case, "raise", _describe(res))
+                        elif numbers_units(x) != nx and (form in ("inplace", "index") or name in ("put", "place", "putmask", "put_along_axis", "fill_diagonal", "copyto", "copyto_where") or form == "at"):
+                            ctx.violation(base + "|mode=target-changed-on-raise", case, "unchanged", "changed")
+
+
+def _nq(reg, unit, shape, k):
+    if shape == "scalar":
+        return unyt_quantity(2.5 + k, unit, registry=reg)
+    return unyt_array(np.array([1.5, -2.25, 3.0]) + k, unit, registry=reg)
+
+
 def run(ctx):
+    harness.pmap(ctx, part_namesake, [["stale-after-redefinition"], ["two-registries"]])
     triples = DIM_TRIPLES_QUICK
     shards = [[(oi, t)] for oi in range(len(OPS)) for t in triples]
     harness.pmap(ctx, part, shards)
@@ -452,6 +539,9 @@ def run(ctx):
 
 def replay(case):
     ctx = harness.Ctx(PROPERTY, "quick", 0)
+    if case.get("part") == "namesake":
+        part_namesake(ctx, [case["scenario"]])
+        return list(ctx.violations.items())
     for op in OPS:
         if op[0] == case["op"] and op[1] == case["form"]:
             eval_case(ctx, op, case["left"], case["right"], tuple(case["triple"]), case["shape"])
